@@ -187,9 +187,9 @@ class BNCase:
 
 def enumerate_specs(tier):
     specs = []
-    hl = 3 if tier == "quick" else 4
+    hl = 3 if tier == "quick" else 5
     for p in (0.0, 0.5, 0.75, 1.0):     # 1/(1-p) exactly representable: the scale is formed in float arithmetic
-        for h in histories(hl):
+        for h in histories(min(hl, 4)):
             if h.count("f") > 2:
                 continue
             specs.append({"kind": "dropout", "p": p, "shape": [2], "history": h})
@@ -210,7 +210,9 @@ def enumerate_specs(tier):
                             continue
                         if tier == "quick" and len(h) == 3 and idx % 2:
                             continue
-                        if tier != "quick" and len(h) == 4 and idx % 3:
+                        if tier != "quick" and len(h) == 4 and idx % 2:
+                            continue
+                        if tier != "quick" and len(h) == 5 and idx % 6:
                             continue
                         specs.append({"kind": "bn", "shape": list(shape), "affine": affine, "track": track,
                                       "momentum": momentum, "history": h})
